@@ -6,6 +6,7 @@
 package store
 
 import (
+	"time"
 	"errors"
 	"fmt"
 	"os"
@@ -45,6 +46,9 @@ type Wrap struct {
 	KillAtWrite int
 	// OnWrite is called after each successful write with its number.
 	OnWrite func(n int)
+	// Slow makes the named method ("Add", "Remove", "Clear", ...) sleep before it reaches
+	// the inner storage (a slow back end); set before use, never changed afterwards.
+	Slow map[string]time.Duration
 
 	// Snapshots[i] is the content of the inner MemStorage after write i+1.
 	Snapshots []map[string]map[string]string
@@ -83,6 +87,9 @@ func MemFrom(content map[string]map[string]string) *core.MemStorage {
 }
 
 func (w *Wrap) begin(method, loc, key string, write bool) (int, error) {
+	if d := w.Slow[method]; d > 0 {
+		time.Sleep(d)
+	}
 	w.mu.Lock()
 	defer w.mu.Unlock()
 	n := len(w.Calls) + 1
